@@ -6,6 +6,7 @@
 #include <fstream>
 
 #include "api_crate.hpp"
+#include "common/raw_tables.hpp"
 #include "common/sqlite_shim.hpp"
 #include "refcodec/refcodec.hpp"
 
@@ -217,6 +218,10 @@ inline void apply_track_op(World& w, S& s, Ctx& ctx, bool hostile)
 struct Sql
 {
     sqlite3* db = nullptr;
+    bool owned = true;
+    // borrows a connection that somebody else owns (the library's own connection, obtained through the sqlite3_step shim); statements
+    // run through it here do not pass the shim, so they are neither counted nor failed
+    explicit Sql(sqlite3* borrowed) : db(borrowed), owned(false) {}
     explicit Sql(const std::string& file)
     {
         if (sqlite3_open_v2(file.c_str(), &db, SQLITE_OPEN_READONLY, nullptr) != SQLITE_OK)
@@ -230,7 +235,7 @@ struct Sql
     }
     ~Sql()
     {
-        if (db)
+        if (db && owned)
             sqlite3_close(db);
     }
     Sql(const Sql&) = delete;
@@ -267,6 +272,8 @@ struct Sql
     bool has_table(const std::string& name) { return !q("SELECT 1 FROM sqlite_master WHERE name='" + name + "'").empty(); }
 };
 inline bool is_null(const std::string& s) { return s == "\x01NULL"; }
+
+using vfraw::raw_tables;
 
 inline void check_blob(int kind, const std::string& bytes, const std::string& what)
 {
@@ -951,6 +958,19 @@ inline void prop_c15(const vf::Case& c, Ctx& ctx)
                         bool exists = false;
                         for (auto& t : w.tracks)
                             exists = exists || (t.live && t.id == id);
+                        if (!exists && s.coin())
+                            for (auto& t : w.tracks)
+                                if (t.live && !w.members.count({cr->id, t.id}))
+                                {
+                                    // so that the foreign entry gets a predecessor in the crate's list
+                                    int64_t tid = t.id;
+                                    hostile_call(w, "add_track(" + std::to_string(cr->id) + ", live id " + std::to_string(tid) + ")", [&] {
+                                        cr->handle.add_track(tid);
+                                        if (w.members.insert({cr->id, tid}).second)
+                                            w.entries[cr->id].push_back(tid);
+                                    });
+                                    break;
+                                }
                         hostile_call(w, "add_track(" + std::to_string(cr->id) + ", id " + std::to_string(id) + ")", [&] {
                             cr->handle.add_track(id);
                             if (exists && w.members.insert({cr->id, id}).second)
@@ -959,6 +979,20 @@ inline void prop_c15(const vf::Case& c, Ctx& ctx)
                         ctx.label(fam + "add_track(nonexistent id)");
                         // whatever happened, the crate listing must stay usable
                         hostile_call(w, "tracks()", [&] { for (auto& t : cr->handle.tracks()) (void)t.is_valid(); });
+                        if (!exists && s.coin())
+                        {
+                            // take the single foreign entry out again through the handle the listing returned (first, middle or last
+                            // position, whatever the crate held before), list again, append to the list, list again
+                            hostile_call(w, "remove_track(listed handle of id " + std::to_string(id) + ")", [&] {
+                                for (auto& t : cr->handle.tracks())
+                                    if (t.id() == id)
+                                        cr->handle.remove_track(t);
+                            });
+                            hostile_call(w, "tracks()", [&] { for (auto& t : cr->handle.tracks()) (void)t.is_valid(); });
+                            hostile_call(w, "add_track(id again)", [&] { cr->handle.add_track(id); });
+                            hostile_call(w, "tracks()", [&] { for (auto& t : cr->handle.tracks()) (void)t.is_valid(); });
+                            ctx.label(fam + "remove_track(nonexistent id entry)");
+                        }
                         if (!exists)
                             hostile_call(w, "clear_tracks()", [&] { cr->handle.clear_tracks(); for (auto it = w.members.begin(); it != w.members.end();) it = it->first == cr->id ? w.members.erase(it) : std::next(it); w.entries[cr->id].clear(); });
                         break;
@@ -1482,6 +1516,8 @@ inline void prop_c14(const vf::Case& c, Ctx& ctx)
     {
         auto w = build_c14_state(schema, c, 1, std::min(n_extra, op_rec > 1 ? op_rec - 1 : 0));
         std::string before = observe(w->db, w->v2);
+        std::string raw_before = sh.last_db ? raw_tables(sh.last_db) : std::string();
+        sqlite3* conn_before = sh.last_db;
         bool threw = false;
         vfshim::arm(k);
         std::string d2 = do_mutation(*w, m, S(c[op_rec]), threw);
@@ -1495,6 +1531,13 @@ inline void prop_c14(const vf::Case& c, Ctx& ctx)
         std::string after = observe(w->db, w->v2);
         VF_CHECK(before == after, where << ": observable state changed although the call failed: " << first_diff_line(before, after));
         VF_CHECK(!conn || sqlite3_get_autocommit(conn) != 0, where << ": a transaction was left open");
+        // the stored tables themselves (rows no accessor shows: bookkeeping rows of the crate encodings, change log, sequence counters)
+        if (conn && conn == conn_before)
+        {
+            std::string raw_after = raw_tables(conn);
+            VF_CHECK(raw_before == raw_after, where << ": the stored tables changed although the call failed: " << first_diff_line(raw_before, raw_after));
+            ctx.label("raw-tables-compared");
+        }
         // the library stays usable: the same operation now succeeds
         bool threw2 = false;
         std::string d3 = do_mutation(*w, m, S(c[op_rec]), threw2);
@@ -1509,6 +1552,8 @@ inline void prop_c14(const vf::Case& c, Ctx& ctx)
     {
         auto w = build_c14_state(schema, c, 1, std::min(n_extra, op_rec > 1 ? op_rec - 1 : 0));
         std::string before = observe(w->db, w->v2);
+        std::string raw_before = sh.last_db ? raw_tables(sh.last_db) : std::string();
+        sqlite3* conn_before = sh.last_db;
         bool threw = false;
         vfshim::arm(k, true);
         std::string d2 = do_mutation(*w, m, S(c[op_rec]), threw);
@@ -1522,6 +1567,11 @@ inline void prop_c14(const vf::Case& c, Ctx& ctx)
         std::string after = observe(w->db, w->v2);
         VF_CHECK(before == after, where << ": observable state changed although the call failed: " << first_diff_line(before, after));
         VF_CHECK(!conn || sqlite3_get_autocommit(conn) != 0, where << ": a transaction was left open");
+        if (conn && conn == conn_before)
+        {
+            std::string raw_after = raw_tables(conn);
+            VF_CHECK(raw_before == raw_after, where << ": the stored tables changed although the call failed: " << first_diff_line(raw_before, raw_after));
+        }
         bool threw2 = false;
         std::string d3 = do_mutation(*w, m, S(c[op_rec]), threw2);
         VF_CHECK(!threw2, where << ": after the failed call the same operation no longer succeeds: " << d3);
